@@ -17,7 +17,7 @@ def run(ctx):
     ctx.clause = ("in the ABIXML reader and the tools' ABIXML read paths: results of nullable producers are checked "
                   "before use, constant subscripts on input-filled vectors are size-guarded, and no assertion / abort "
                   "depends on a value taken from the document without a dominating check")
-    ctx.rules = ["R-NULLABLE", "R-IDX", "R-INASSERT", "R-VFNCLASS", "R-FILTERSYM"]
+    ctx.rules = ["R-NULLABLE", "R-IDX", "R-INASSERT", "R-VFNCLASS", "R-FILTERSYM", "R-TYPECYCLE"]
     with open(os.path.join(TABLES, "c33_tables.json")) as fh:
         T = json.load(fh)
     P = ctx.program(None)
@@ -30,7 +30,23 @@ def run(ctx):
     for f in rfuncs:
         if f.n in producers and not f.dep:
             pass
-    n = nr.nullable_derefs(ctx, P, rfuncs, prod)
+    und = T.get("nullable_undecided", {})
+
+    def setter_gen(f, n):
+        """x.set_corpus(<non-null>) makes x.get_corpus() non-null (setter / getter pair of the read context)"""
+        from engine.cfg import definitely_nonnull, strip_casts
+        from engine.facts import call_args, member_call_object, expr_str
+        if n["k"] == "CXXMemberCallExpr" and ((f.decl(n) or {}).get("n") or "").startswith("set_") and len(call_args(n)) == 1 \
+                and definitely_nonnull(f, call_args(n)[0]):
+            o = strip_casts(member_call_object(n))
+            if o is not None:
+                return [("nn", "%s.get_%s()" % (expr_str(f, o), f.decl(n)["n"][4:]))]
+        return None
+    n = nr.nullable_derefs(ctx, P, [f for f in rfuncs if nr.short(f) not in und], prod, extra_gen=setter_gen)
+    for k_, e_ in sorted(und.items()):
+        ctx.note("R-NULLABLE %s: results of %s not decided (%s)" % (k_, "/".join(e_["producers"]), e_["why"]))
+        rest = producers - set(e_["producers"])
+        n += nr.nullable_derefs(ctx, P, [f for f in rfuncs if nr.short(f) == k_], lambda d, rest=rest: d["n"] in rest, extra_gen=setter_gen)
     ctx.floor("R-NULLABLE", "dereferences of nullable producer results in the reader", n, 35)
     tfuncs = [f for f in P.all_funcs() if f.relfile.endswith(TOOL_FILES)]
     n2 = nr.nullable_derefs(ctx, P, tfuncs, lambda d: d["n"] in LOADERS)
@@ -46,10 +62,71 @@ def run(ctx):
     from rules import vfn_rule
     vfn_rule.check(ctx, P)
     check_filtersym(ctx, P)
+    check_typecycle(ctx, P, T)
     for fn, why in T["not_producers"].items():
         ctx.note("not in the nullable-producer table: %s - %s" % (fn, why))
     ctx.assume("general memory safety of the reader beyond these three fault classes is not decided")
 
+
+
+REGISTER = ("key_type_decl", "push_and_key_type_decl", "map_xml_node_to_decl")
+
+
+def check_typecycle(ctx, P, T):
+    """R-TYPECYCLE: type ids may refer to each other in a cycle (a document can say anything).  The reader resolves a
+    referenced id by building the element that carries it (read_context::build_or_get_type_decl -> build_type -> build_X);
+    the recursion ends only if an element that is being built can already be found by its id.  For every builder that
+    registers what it builds (key_type_decl / push_and_key_type_decl / map_xml_node_to_decl), every path from its entry to
+    a resolution of a referenced type id passes that registration first (the pointer, reference and class builders say so
+    in a comment).  A builder that resolves first re-enters itself for `<typedef-decl type-id='t' id='t'/>` until the
+    stack is exhausted."""
+    from engine.facts import walk, call_args
+    from rules.world import World
+    from engine.compdb import AnalysisBroken
+    n = 0
+    und = T.get("typecycle_undecided", {})
+    for f in sorted(P.all_funcs(), key=lambda x: x.l0):
+        if f.dep or f.cfg() is None or not f.relfile.endswith("src/abg-reader.cc") or not f.n.startswith("build_"):
+            continue
+        res = [x for x in f.nodes() if x["k"] == "CXXMemberCallExpr" and (f.decl(x) or {}).get("n") == "build_or_get_type_decl"]
+        reg = [x for x in f.nodes() if x["k"] in ("CXXMemberCallExpr", "CallExpr") and (f.decl(x) or {}).get("n") in REGISTER]
+        if not res or not reg:
+            continue
+        if f.n in und:
+            ctx.note("R-TYPECYCLE %s: not decided (%s)" % (f.n, und[f.n]))
+            continue
+        n += 1
+        ctx.analysed(f)
+        regids = {x["i"] for x in reg}
+        resids = {x["i"] for x in res}
+        # every path to a resolution passes a registration: search a path that reaches a resolution with none before
+        cfg = f.cfg()
+        W = World(f, lambda e: None)
+        seen, stack, bad = set(), [cfg.entry], None
+        while stack and bad is None:
+            b = stack.pop()
+            if b in seen or b not in cfg.blocks:
+                continue
+            seen.add(b)
+            cut = False
+            for e in cfg.blocks[b].elems:
+                if e["i"] in regids:
+                    cut = True
+                    break
+                if e["i"] in resids:
+                    bad = e
+                    break
+                if e["k"] == "ReturnStmt":
+                    cut = True
+                    break
+            if not cut and bad is None and not cfg.blocks[b].noret:
+                stack.extend(s_ for s_ in cfg.blocks[b].succs if s_ is not None)
+        ctx.ob("R-TYPECYCLE", "%s registers the type it builds before it resolves the type ids the element refers to" % f.n,
+               bad is None, f.loc(bad) if bad is not None else f.loc(),
+               "every path to build_or_get_type_decl() passes %s" % "/".join(sorted({(f.decl(x) or {}).get("n") for x in reg})) if bad is None else
+               "build_or_get_type_decl() is reached before the element's own id can be found: an element whose type-id designates "
+               "itself (or a cycle of such elements) makes the reader recurse until the stack is exhausted")
+    ctx.floor("R-TYPECYCLE", "builders of referencable types in the ABIXML reader", n, 8)
 
 
 # A declaration read from ABIXML has a symbol only if its elf-symbol-id resolves; the reader silently leaves it without one
